@@ -25,6 +25,11 @@ def _arr(x):
 
 
 class Index:
+    def __getattr__(self, name):
+        import pandas as _rpd
+        from .values import missing_attr
+        missing_attr(getattr(_rpd, type(self).__name__, _rpd.Index), name, f"pandas.{type(self).__name__}")
+
     def __init__(self, data=None, dtype=None, name=None, copy=False):
         if isinstance(data, Series):
             name = name if name is not None else data.name
@@ -190,7 +195,9 @@ class DatetimeIndex(Index):
     def __getattr__(self, name):
         if name in _CAL:
             return self._attr(name)
-        raise AttributeError(name)
+        import pandas as _rpd
+        from .values import missing_attr
+        missing_attr(_rpd.DatetimeIndex, name, "pandas.DatetimeIndex")
 
     def isocalendar(self):
         wk = Series(self._attr("week").arr.astype("uint32"), index=self, name="week")
@@ -250,7 +257,9 @@ class _DtAccessor:
     def __getattr__(self, name):
         if name in _CAL:
             return Series(DatetimeIndex(self.s.values_arr())._attr(name).arr, index=self.s.index)
-        raise AttributeError(name)
+        import pandas as _rpd
+        from .values import missing_attr
+        missing_attr(_rpd.core.indexes.accessors.DatetimeProperties, name, "pandas.Series.dt")
 
 
 class TzDtype:
@@ -269,6 +278,11 @@ class TzDtype:
 
 
 class Series:
+    def __getattr__(self, name):
+        import pandas as _rpd
+        from .values import missing_attr
+        missing_attr(_rpd.Series, name, "pandas.Series")
+
     def __init__(self, data=None, index=None, dtype=None, name=None, tz=None, copy=False):
         if isinstance(data, (int, float, bool)) and index is not None:
             n = len(index)
